@@ -4,6 +4,7 @@ import (
 	"fmt"
 	"reflect"
 	"sort"
+	"unsafe"
 )
 
 var (
@@ -44,6 +45,9 @@ func notedID(k interface{}) (id uint64, ok bool) {
 
 // SortedKeys returns the keys of m in a deterministic order.
 func SortedKeys[M ~map[K]V, K comparable, V any](m M) []K {
+	if r := cur; r != nil && r.cfg.Race {
+		r.mapAccess(*(*uintptr)(unsafe.Pointer(&m)), m, false)
+	}
 	keys := make([]K, 0, len(m))
 	for k := range m {
 		keys = append(keys, k)
